@@ -479,7 +479,7 @@ func c05Search(c *core.Ctx, dir string, ops []dml.Op, depth int, label string) {
 }
 
 func c05Replay(c *core.Ctx, payload json.RawMessage) {
-	if c05ParallelReplay(c, payload) || c01AttrReplay(c, payload) || c05TypedReplay(c, payload) || c05SelfJoinReplay(c, payload) {
+	if c05ParallelReplay(c, payload) || c01AttrReplay(c, payload) || c05TypedReplay(c, payload) || c05SelfJoinReplay(c, payload) || c05LayReplay(c, payload) {
 		return
 	}
 	var p c05Payload
